@@ -85,6 +85,18 @@ Proof. exact next_source_is_model. Qed.
 Theorem C14_drop_source_is_model : forall (fuel : nat) (p : smoother) (it : iter), it_done (snd (drop_iter fuel p it)) = true -> gen_Iter_drop ext_model ext_st_model (S fuel) (enc_self p it) = (enc_self (fst (drop_iter fuel p it)) (snd (drop_iter fuel p it)), VC "()" []).
 Proof. exact drop_source_is_model. Qed.
 
+(* One raw confirmation consumed completely by the translated code (process, then next until None, then drop - as
+   `for c in smoother.process(raw)` runs it), in any state the smoother can be in after a valid history: what comes out
+   and the smoother afterwards are the model's. *)
+Theorem C14_process_call_source_is_model : forall (e0 : N) (h : list raw) (r : raw) (outs : list out) (p : smoother), Inv e0 h outs p -> (r_multiple r = false -> forall r' : raw, In r' h -> r_multiple r' = false -> r_tag r' <> r_tag r) -> gprocess (gfuel (enc_smoother p) (enc_raw r)) (enc_smoother p) (enc_raw r) = (map enc_out (fst (process p r)), enc_smoother (snd (process p r))).
+Proof. exact process_call_source_is_model. Qed.
+
+(* C14 AS A THEOREM ABOUT THE TRANSLATED CODE: after EVERY valid history of raw confirmations the translated smoother
+   (Gen/SrcConfirm.v) has emitted exactly what the model emits - hence, by C14_exact, the maximal run of covered tags,
+   each once, in order, non-multiple, with the outcome of its first cover - and is in the model's state. *)
+Theorem C14_run_all_source_is_model : forall (e0 : N) (h : list raw), singles_distinct h -> grun_all (enc_smoother (new_smoother e0)) h = (map enc_out (fst (run_all (new_smoother e0) h)), enc_smoother (snd (run_all (new_smoother e0) h))).
+Proof. exact run_all_source_is_model. Qed.
+
 Check C14_exact : forall e0 h,
   singles_distinct h ->
   exists outs p, run_all (new_smoother e0) h = (outs, p) /\
@@ -106,6 +118,9 @@ Check C14_process_source_is_model : forall (p : smoother) (r : raw), gen_Confirm
 Check C14_next_source_is_model : forall (p : smoother) (it : iter), gen_Iter_next ext_model ext_st_model (enc_self p it) = (let '(o, p', it') := next p it in (enc_self p' it', enc_opt o)).
 Check C14_drop_source_is_model : forall (fuel : nat) (p : smoother) (it : iter), it_done (snd (drop_iter fuel p it)) = true -> gen_Iter_drop ext_model ext_st_model (S fuel) (enc_self p it) = (enc_self (fst (drop_iter fuel p it)) (snd (drop_iter fuel p it)), VC "()" []).
 
+Check C14_process_call_source_is_model : forall (e0 : N) (h : list raw) (r : raw) (outs : list out) (p : smoother), Inv e0 h outs p -> (r_multiple r = false -> forall r' : raw, In r' h -> r_multiple r' = false -> r_tag r' <> r_tag r) -> gprocess (gfuel (enc_smoother p) (enc_raw r)) (enc_smoother p) (enc_raw r) = (map enc_out (fst (process p r)), enc_smoother (snd (process p r))).
+Check C14_run_all_source_is_model : forall (e0 : N) (h : list raw), singles_distinct h -> grun_all (enc_smoother (new_smoother e0)) h = (map enc_out (fst (run_all (new_smoother e0) h)), enc_smoother (snd (run_all (new_smoother e0) h))).
+
 Print Assumptions C14_exact.
 Print Assumptions C14_safety.
 Print Assumptions C14_drop.
@@ -114,3 +129,5 @@ Print Assumptions C14_example.
 Print Assumptions C14_process_source_is_model.
 Print Assumptions C14_next_source_is_model.
 Print Assumptions C14_drop_source_is_model.
+Print Assumptions C14_process_call_source_is_model.
+Print Assumptions C14_run_all_source_is_model.
